@@ -184,7 +184,7 @@ Definition e2e_layers (c : config) (text : str) :=
    Stream.invalid_count (fun _ : list Stream.line => @nil unit) (fun _ : list unit => tt) (stream_cfg c header) (abs_lines ps)).
 
 (* everything between the text and the table, for the failing case only: header, common denominator, per batch the parsed
-   rows and the triplets (FeatureA, FeatureB, numerator over D), invalid-line count *)
+   rows and the triplets (FeatureA, FeatureB, numerator over D), invalid-line count, all parsed data lines *)
 Definition e2e_detail (c : config) (text : str) :=
   let header := header_of text in let ps := parse_lines text in
   let bs := e2e_batches c header ps in let D := common_den bs in
@@ -192,7 +192,8 @@ Definition e2e_detail (c : config) (text : str) :=
    map (fun b => (batch_rows ps b,
                   map (fun r : Combos.row => (fst (fst r), snd (fst r), Z.of_N (snd r)))
                       (batch_triplets c header D (batch_rows ps b)))) bs,
-   Stream.invalid_count (fun _ : list Stream.line => @nil unit) (fun _ : list unit => tt) (stream_cfg c header) (abs_lines ps)).
+   Stream.invalid_count (fun _ : list Stream.line => @nil unit) (fun _ : list unit => tt) (stream_cfg c header) (abs_lines ps),
+   ps).
 
 Definition e2e_eval (c : config) (text : str) :=
   (e2e_status c text, match e2e_run c text with Some t => enc_table t | None => [] end).
